@@ -109,13 +109,13 @@ theorem recognise_cons (c0 : UInt8) (tl : Bytes) :
   rw [splitSign_cons]
 
 /-- agreement of `readFloat`'s results with a specification parse (see `rfTail_spec`) -/
-def Agrees (r : RF) (p : Parsed) (lit : Nat) : Prop :=
+def Agrees (r : RF) (p : Parsed) (gap : Int) : Prop :=
   r.ok = true ∧ r.neg = p.neg ∧ r.hex = p.hex ∧ r.mant < 2 ^ 64 ∧
   (r.trunc = false → ∃ j : Nat, p.mant = r.mant * baseOf p.hex ^ j ∧
-    (r.mant ≠ 0 → lit < 10000 → r.exp = p.exp + (((if p.hex then 4 else 1) * j : Nat) : Int))) ∧
+    (r.mant ≠ 0 → r.exp = p.exp + (((if p.hex then 4 else 1) * j : Nat) : Int) + gap)) ∧
   (r.trunc = true → ∃ j : Nat, r.mant * baseOf p.hex ^ j < p.mant ∧ p.mant < (r.mant + 1) * baseOf p.hex ^ j ∧
     baseOf p.hex ^ (maxDOf p.hex - 1) ≤ r.mant ∧
-    (lit < 10000 → r.exp = p.exp + (((if p.hex then 4 else 1) * j : Nat) : Int)))
+    r.exp = p.exp + (((if p.hex then 4 else 1) * j : Nat) : Int) + gap)
 
 /-- value of the exponent literal of a text (0 if it has none) -/
 def expLit (s : Bytes) : Nat :=
@@ -164,11 +164,17 @@ theorem parseBody_zero_letter (x : UInt8) (r : Bytes)
 theorem strip_zero_letter (x : UInt8) (r : Bytes) (h95 : x ≠ 95) : strip (48 :: x :: r) = 48 :: x :: strip r := by
   rw [strip_cons 48 _ (by decide), strip_cons x r h95]
 
+/-- what the clamp of the exponent digit loop adds to the exponent the specification reads
+(0 for every exponent literal below 100000, see `expGapS_zero`) -/
+def expGapS (s : Bytes) : Int :=
+  if isHexPrefix (splitSign s).2 then expGap isHexDig (strip ((splitSign s).2.drop 2))
+  else expGap isDec (strip (splitSign s).2)
+
 /-- **`readFloat` against the specification's recogniser**, for every text on which
 `underscoreOK` holds (otherwise `ParseFloat` never calls `readFloat`). -/
 theorem readFloat_recognise (s : Bytes) (hu : underscoreOK s = true) :
     (recognise s = none → (readFloat s).ok = false) ∧
-    (∀ p, recognise s = some p → Agrees (readFloat s) p (expLit s)) := by
+    (∀ p, recognise s = some p → Agrees (readFloat s) p (expGapS s)) := by
   cases s with
   | nil =>
     refine ⟨fun _ => rfl, fun p h => ?_⟩
@@ -177,7 +183,7 @@ theorem readFloat_recognise (s : Bytes) (hu : underscoreOK s = true) :
   | cons c0 tl =>
     rw [underscoreOK_cons] at hu
     rw [recognise_cons, readFloat_body]
-    unfold expLit
+    unfold expGapS
     rw [splitSign_cons]
     simp only []
     generalize bodyOf c0 tl = body at *
